@@ -267,12 +267,23 @@ def _c14_property(r):
             return "patchrt/valid-document/refused"
         if canon(r["impl"].get("applied")) != canon(doc):
             return "patchrt/round-trip-differs"
+    if r["kind"] == "ctor" and isinstance(r["impl"], dict):
+        # "every patch produced by the patch constructors from valid input passes validation, and serializing any patch
+        # to bytes and parsing it back gives an equal patch whose action and value accessors agree"
+        where = "ctor/" + str(r["case"].get("ctor")) + "/"
+        if r["case"].get("label") == "valid":
+            if r["impl"].get("class") != "ok":
+                return where + "valid-input-refused"
+            if r["impl"].get("validate") != "ok":
+                return where + "produced-patch-fails-validation"
+        if r["impl"].get("class") == "ok" and r["impl"].get("bytes_roundtrip") is not True:
+            return where + "bytes-round-trip"
     return None
 
 
 PROPS["C14"] = {
     "property_check": _c14_property,
-    "theorem_modules": ["Sidetree.Props.C14", "Sidetree.Props.C14General"],
+    "theorem_modules": ["Sidetree.Props.C14", "Sidetree.Props.C14General", "Sidetree.Props.C14Ctor"],
     "prescribes": "Sidetree.PatchBuild.fromDocument + Sidetree.Composer.applyPatches (Props.C14)",
     "obligations": [
         {"name": "C14_actionConfig", "facts": ["actionConfig"]},
@@ -281,18 +292,28 @@ PROPS["C14"] = {
         {"name": "C13_limits", "facts": ["maxIDLength", "maxServiceTypeLength", "idRegexp", "limitOps"]},
         {"name": "Shape_Composer", "facts": "module:Composer"},
     ],
-    "streams": [{"gen": "C14", "quick": 4000, "thorough": 200000}, {"gen": "C13", "quick": 1500, "thorough": 60000}],
-    "label": lambda r: _lab(r, r["model"].get("class") or (r["model"].get("from_bytes", "") + "/" + str(r["model"].get("validate")))),
+    "streams": [{"gen": "C14", "quick": 4000, "thorough": 200000}, {"gen": "C14ctor", "quick": 3000, "thorough": 150000}, {"gen": "C13", "quick": 1500, "thorough": 60000}],
+    "label": lambda r: (r["kind"] + "/" + str(r["case"].get("ctor")) + "/" if r["kind"] == "ctor" else "") +
+                       _lab(r, r["model"].get("class") or (r["model"].get("from_bytes", "") + "/" + str(r["model"].get("validate")))),
     "nontrivial": lambda r: r["model"].get("class") == "ok" or r["model"].get("from_bytes") == "ok",
     "shape": lambda r: r["case"].get("doc") or r["case"].get("patch") or r["case"],
     "rule": "documents without an id whose publicKey/service/alsoKnownAs members are non-empty lists (keys of every type, services with every endpoint shape) plus further members with "
             "ordinary names over all Unicode planes and arbitrary simple JSON values; labelled out-of-quantifier shapes (with id, empty id, empty/ill-typed alsoKnownAs, ill-typed publicKey, "
             "non-objects). Compared: PatchesFromDocument result (patch list as values), validation verdict of every produced patch, Bytes()/FromBytes round trip with accessor agreement, "
-            "and the document obtained by applying the patches to {}. Non-trivial = patches produced; distinct = distinct document text.",
+            "and the document obtained by applying the patches to {}. The eight constructors (NewReplacePatch, NewJSONPatch, NewAddPublicKeysPatch, NewRemovePublicKeysPatch, "
+            "NewAddServiceEndpointsPatch, NewRemoveServiceEndpointsPatch, NewAddAlsoKnownAs, NewRemoveAlsoKnownAs) on argument texts: the value member of a patch that passes validation, "
+            "in a random JSON spelling (the constructed patch must pass validation too - predicate on the implementation's own answer), that value corrupted, of another JSON type, "
+            "with a null / repeated entry, empty, or no JSON at all; compared: accept/refuse, the patch, its validation verdict, its byte round trip. "
+            "Non-trivial = patches produced; distinct = distinct document / argument text.",
     "technique": "Lean 4 theorems (document -> patches -> document round trip; action table by decide) + differential correspondence",
     "level_text": "Proved in Lean (Props/C14General.lean, document_roundtrip): for EVERY document in the quantifier - no id; keys, services and also-known-as, where present, non-empty lists of the right shape; any number of further members with ordinary names and arbitrary JSON values; unique names; any member order - PatchesFromDocument succeeds and applying its patches to the empty document with the composer (patch-library model included) yields a document with exactly the same members. Proved in Lean: for every document in the quantifier, applying fromDocument's patches to the empty document succeeds and gives a document with the same members; documents "
                   "with an id are refused; a value is acceptable as a patch iff it has a supported action and that action's value member (table tied to patch.go by an obligation). "
-                  "The bytes round trip and 'constructed patches validate' rest on the correspondence stream (Go's encoding/json is not modelled beyond values).",
+                  "The eight constructors (Props/C14Ctor.lean, model PatchBuild.newPatch): whatever a constructor returns is acceptable as a patch, carries the constructor's action and, under that "
+                  "action's value key, exactly the value it was made from - for the id / URI constructors the list of strings the argument decodes to (newPatch_accessors); and for each "
+                  "constructor a valid argument - stated on the argument alone: a non-empty list of valid ids; of URIs that parse and differ; of objects meeting the key / service constraints; "
+                  "a replace document with the two allowed members; a non-empty operation list the ietf validator accepts - gives a patch that passes validation (remove_validates, "
+                  "aka_validates, add_keys_validates, add_services_validates, replace_validates, ietf_validates). The bytes round trip rests on the correspondence stream (Go's "
+                  "encoding/json is not modelled beyond values).",
     "level_note": "Trusted: Lean kernel; extractor; harness. The round-trip theorem is stated for ordinary member names (the property's quantifier); names that need escaping are covered by the stream since the D30 repair.",
 }
 
@@ -592,14 +613,15 @@ def _cmp_c17(kind, case, impl, model):
 
 _C17_MUST_REFUSE = {"single-char-change", "initial-state-respelled", "initial-state-padding", "initial-state-lenient-base64",
                     "foreign-namespace", "short-form", "suffix-of-another-request", "missing-parts", "tampered-initial-state",
-                    "initial-state-extra-member", "initial-state-not-a-create", "initial-state-other-type-value"}
+                    "initial-state-extra-member", "initial-state-not-a-create", "initial-state-other-type-value",
+                    "extra-middle-segments", "suffix-letter-case-flipped"}
 
 
 def _c17_property(r):
     imp = r["impl"]
-    if r["kind"] == "resolve" and r["case"].get("label") in _C17_MUST_REFUSE and isinstance(imp, dict) and imp.get("class") == "ok" \
-            and not (r["case"]["label"] == "foreign-namespace" and r["case"]["did"].startswith(r["case"]["ns"] + ":")):
-        # "non-canonical or tampered initial states and mismatching suffixes are rejected"; every single-character change
+    if r["kind"] == "resolve" and r["case"].get("label") in _C17_MUST_REFUSE and isinstance(imp, dict) and imp.get("class") == "ok":
+        # "non-canonical or tampered initial states and mismatching suffixes are rejected"; every single-character change;
+        # "DIDs of another method (even one sharing a name prefix)": also the namespaces that continue the handler's with a colon (D49)
         return "resolve/" + r["case"]["label"] + "/resolves"
     if r["kind"] == "process" and isinstance(imp, dict) and imp.get("class") == "ok":
         # "a long-form DID ... returned when a create request is processed, resolves ... to" the same result
@@ -648,7 +670,8 @@ PROPS["C17"] = {
             "directly (the handler looks at the namespace first). Compared: accept/refuse, the whole resolution result, and short / long / error of ParseDID.",
     "technique": "Lean 4 theorems on the resolution model (namespace gate, canonical initial state, shape of resolvable DIDs, self-certification) + go/ast obligations + differential correspondence",
     "level_text": "Proved in Lean: a DID resolves only if it begins with the handler's namespace and a colon (so did:foobar never resolves on did:foo); short forms are refused; an initial "
-                  "state is accepted only if it is the exact unpadded base64url encoding of the canonical JSON of the request it decodes to; every resolvable DID ends in suffix:initial-state "
+                  "state is accepted only if it is the exact unpadded base64url encoding of the canonical JSON of the request it decodes to; every resolvable DID is exactly "
+                  "namespace:suffix:initial-state - nothing between namespace and suffix (resolve_shape, D49) - "
                   "where the request is accepted by the parser under the handler's protocol and the suffix is the sha2-256 model multihash of its suffix data (via C03); the id and "
                   "equivalent id of the result; an offline resolution reports published = false and, in its method metadata, exactly the recovery commitment and anchor origin of the suffix data "
                   "embedded in the DID and the update commitment of the embedded delta; the result is the transformation of a state whose document is the composer's result for the embedded "
